@@ -755,6 +755,16 @@ namespace cds { namespace algo {
                 return true;
             }
 
+            // Checks if pRec is linked into the publication list. Called only by the combiner thread
+            bool is_published( publication_record const * pRec ) const
+            {
+                for ( publication_record const * p = m_pHead; p; p = p->pNext.load( memory_model::memory_order_acquire )) {
+                    if ( p == pRec )
+                        return true;
+                }
+                return false;
+            }
+
             void compact_list( unsigned int nCurAge )
             {
                 // Compacts publication list
@@ -798,7 +808,9 @@ namespace cds { namespace algo {
                 // Iterate over allocated list to find removed records
                 pPrev = m_pAllocatedHead;
                 for ( publication_record * p = pPrev->pNextAllocated.load( memory_model::memory_order_acquire ); p; ) {
-                    if ( p->nState.load( memory_model::memory_order_relaxed ) == removed ) {
+                    // A record that has become "removed" after the loop above passed it is still linked
+                    // into the publication list; it will be excluded and freed by the next compacting
+                    if ( p->nState.load( memory_model::memory_order_relaxed ) == removed && !is_published( p )) {
                         publication_record * pNext = p->pNextAllocated.load( memory_model::memory_order_relaxed );
                         if ( pPrev->pNextAllocated.compare_exchange_strong( p, pNext, memory_model::memory_order_acquire, atomics::memory_order_relaxed )) {
                             free_publication_record( static_cast<publication_record_type *>( p ));
